@@ -25,6 +25,9 @@ def _lines_for(w):
 
 class C07(TraceCheck):
     pid = "C07"
+    # blessed (third party) switches every terminal capability off when NO_COLOR is set, on the pinned tree as well:
+    # not a variable whose effect says anything about a change to curtsies
+    sweep_exclude = ("NO_COLOR",)
     module = "CursorTrace"
     rule = ("histories of a real CursorAwareWindow (pty in_stream, capture out_stream): k in 0..H+2 pre-existing lines (cursor "
             "ends on any row), enter (cursor report answered by the harness and cross-checked by the reference terminal), "
